@@ -141,6 +141,17 @@ def gen_plan(seed: int, cls: str) -> dict:
                 values.append({'t': ast, 'data': tg.enc(data), 'custom': custom})
             except HarnessError:
                 pass
+    if ro.random() < 0.04:
+        # a document far larger than any buffer or chunk size in the stack (64 KiB .. 300 KiB)
+        n = ro.choice([3000, 9000, 20000])
+        kind = ro.choice(['ints', 'strs', 'map'])
+        if kind == 'ints':
+            values.append({'t': ['list', ['s', 'int']], 'data': [((i * 7919) % 100003) - 50000 for i in range(n)], 'custom': None, 'big': True})
+        elif kind == 'strs':
+            words = tg.ASCII_WORDS + (tg.UNI_WORDS if knobs['alphabet'] != 'ascii' else [])
+            values.append({'t': ['list', ['s', 'str']], 'data': [words[(i * 31) % len(words)] + str(i % 97) for i in range(n)], 'custom': None, 'big': True})
+        else:
+            values.append({'t': ['dict', ['s', 'str'], ['s', 'int']], 'data': {'d': [[f'k{i}', i] for i in range(n)]}, 'custom': None, 'big': True})
     ops = []
     nops = ro.choice([1, 2, 3, 4, 6, 8, 12])
     sinks = SINKS_PATH + SINKS_STREAM + ['str0']
@@ -155,6 +166,8 @@ def gen_plan(seed: int, cls: str) -> dict:
         if r < 0.5 or not written:
             sink = ro.choice(sinks)
             vi = ro.randrange(len(values))
+            if values[-1].get('big') and ro.random() < 0.5:
+                vi = len(values) - 1
             via = 'string' if sink == 'str0' else ro.choice(['func', 'func', 'method'])
             op = {'op': 'write', 'sink': sink, 'val': vi, 'fmt': fmt, 'via': via,
                   'opts': gen_json_opts(ro) if fmt == 'json' else gen_yaml_opts(ro, knobs['alphabet'] in ('numlike', 'lookalike')),
@@ -866,7 +879,7 @@ def _run_one(cfg, item):
     res['seed'] = seed
     if res['violation'] is not None or cfg.get('keep_plan'):
         res['plan'] = plan
-    if index < cfg.get('sample', 0) and cls != 'realdisk':
+    if index < cfg.get('sample', 0) and cls != 'realdisk' and not any(v.get('big') for v in plan['values']):
         r2 = execute_isolated(plan, want_trace=True)
         res['sample'] = {'class': cls, 'index': index, 'seed': seed, 'plan': plan, 'trace': r2['trace']}
     return res
